@@ -323,6 +323,16 @@ theorem c15_lifetime_counter_counterexample :
     MEv.reopenSucceeded ∉ attemptReopen (Base.policy ⟨2, 0, 0⟩) (outageOuts 1 []) 0 1 := by
   decide
 
+/-- Monitors are independent: with several transports, each with its own monitor value whose
+fields the application may rewrite at any time, the runner trace of transport `i` over ANY
+interleaving of outages and policy changes of all transports is exactly what monitor `i` alone
+would do on its own outages and its own policy changes — nothing done to another monitor shows.
+(Trivial in the model, where instances are separate values; the tie `c15multi` checks it of the
+code, where `NewDefaultFTransportMonitor()` must hand out a fresh value each time.) -/
+theorem c15_monitors_independent (ms : List Inst) (as : List MAct) (i : Nat) (m : Inst) (hm : ms[i]? = some m) :
+    (multiRun ms as).filterMap (fun e => if e.1 = i then some e.2 else none) = singleRun m as i :=
+  multi_independent ms as i m hm
+
 /-- The excluded configuration: with `InitialWait > MaxWait` the first wait exceeds `MaxWait`. -/
 theorem c15_waits_counterexample :
     ∃ w ∈ sleeps (handleClose (Base.policy ⟨3, 5, 2⟩) false [true]), w > (2 : Int) := by
